@@ -81,3 +81,22 @@ ENGINES[0]['serves_properties'].append('C15')
 LEVEL_TEXT['C15'] = 'Generated operation sequences on hash table and list compared with std::map / std::vector after every mutating command; UBSan makes undefined behaviour for any key bit pattern a failure.'
 LEVEL_NOTE['C15'] = 'Trusted: std containers as reference, UBSan/ASan instrumentation of phashtable.c/plist.c. Listing order is unspecified and compared as multiset.'
 TECHNIQUE['C15'] = 'property-based testing (rapidcheck, model-based) under UBSan/ASan'
+
+# ---- C17 ---------------------------------------------------------------------------------------
+harness('sockaddr', 'engines/seq/sockaddr.cpp', 'gcc-asan')
+reg(Prop('C17', 'exploration', [
+    Sub('grid', 'sockaddr', shards=(4, 8), cases=(1, 1), env={'VERIF_SUB': 'grid'}),
+    Sub('rand', 'sockaddr', shards=(12, 16), cases=(2500, 120000), maxsize=(100, 200), env={'VERIF_SUB': 'rand'}),
+], rule='grid: 19 boundary IPv4 addresses x 6 ports x every native source length 0..36 x 6 destination lengths, and every IPv6 zero-run position x ports x lengths (exhaustive for that grid); '
+        'random: native sockaddr_in/in6 images (boundary-biased octets, structured IPv6 incl. mapped/compatible/link-local/multicast, full-range flow/scope, foreign families, '
+        'exact-size heap buffers of every length), strings (inet_ntop outputs, upper-case/uncompressed/embedded-v4/%scope variants, near-misses, single-character mutations, junk), new_any/new_loopback. '
+        'Oracle: round trips native->object->native and text->object->text, getters, and the platform view computed by the harness with inet_pton/inet_ntop/getaddrinfo(AI_NUMERICHOST); '
+        'acceptance iff the platform accepts; too-small buffers fail without access beyond them (ASan, canary). Non-trivial = native length within 2 of a structure size or <=2, v6 with zero run/flow/scope, '
+        'v4 boundary octets, strings where v4/v6 parsers disagree, scoped or rejected dotted/colon strings. distinct = distinct case text.',
+    assumptions=['scope names depend on the interfaces present: only %lo, numeric scopes and a nonexistent name are generated',
+                 'strings are passed as C strings (cut at the first NUL)', 'gcc -O1 ASan+UBSan build'],
+    corpus_harness='sockaddr', design_ref='4/C17'))
+ENGINES[0]['serves_properties'].append('C17')
+LEVEL_TEXT['C17'] = 'Round-trip and platform-differential oracles over generated addresses, strings and buffer lengths; the boundary grid is enumerated completely, the rest sampled.'
+LEVEL_NOTE['C17'] = 'Trusted: glibc inet_pton/inet_ntop/getaddrinfo as the platform view; ASan for out-of-bounds accesses on exact-size heap buffers.'
+TECHNIQUE['C17'] = 'property-based testing (rapidcheck): round-trip + differential vs platform, exhaustive boundary grid, ASan'
